@@ -178,6 +178,7 @@ MirrorApply(mi, out) ==
                         IF o.n > Len(mi) THEN mi
                         ELSE IF o.uid # 0
                              THEN [mi EXCEPT ![o.n] = [uid |-> o.uid, f |-> IF o.f = Unknown THEN @.f ELSE o.f]]
+                             ELSE IF o.f = Unknown THEN mi        \* a FETCH line without FLAGS teaches nothing about flags
                              ELSE [mi EXCEPT ![o.n].f = o.f]
                      [] OTHER -> mi
        IN MirrorApply(mi2, Tail(out))
